@@ -2,6 +2,7 @@
   C16 — The store directory stays valid; the consistency check is exact.
 -/
 import Whawty.Lemmas.StoreInv
+import Whawty.Model.Cli
 namespace Whawty.Store.C16
 open Whawty Whawty.Rec Whawty.Store
 
@@ -323,3 +324,30 @@ example : check cX (run cX dX [.remove [97], .remove [98]]) = false := by decide
 end NonVacuity
 
 end Whawty.Store.C16
+
+namespace Whawty.Cli.C16
+open Whawty.Cli
+
+/-- The agent refuses to run any command (other than `init` and `check` themselves) on a
+    directory that fails the check — unless checking is explicitly disabled. -/
+theorem refuses_invalid_directory (e : Env) (c : Cmd) (hc : c ≠ .init ∧ c ≠ .check)
+    (hdo : e.doCheck = true) (hv : e.dirValid = false) : gate e c = .exit3 := by
+  cases c <;> simp_all [gate]
+
+/-- Disabling the check is the ONLY way past an invalid directory. -/
+theorem proceeds_only_if_valid_or_disabled (e : Env) (c : Cmd) (hc : c ≠ .init ∧ c ≠ .check)
+    (hp : gate e c = .proceeds) : e.configLoads = true ∧ (e.dirValid = true ∨ e.doCheck = false) := by
+  obtain ⟨cl, dv, de, dc⟩ := e
+  cases c <;> cases cl <;> cases dv <;> cases dc <;> simp_all [gate]
+
+/-- `check` reports exactly the check; `init` only proceeds on an empty directory. -/
+theorem check_command_exact (e : Env) : gate e .check = .exit0 ↔ (e.configLoads = true ∧ e.dirValid = true) := by
+  simp [gate]
+
+theorem init_command_only_on_empty (e : Env) (h : gate e .init = .proceeds) : e.dirEmpty = true := by
+  simp only [gate] at h
+  split at h
+  · simp_all
+  · simp at h
+
+end Whawty.Cli.C16
